@@ -762,6 +762,12 @@ def html_extra_src(rng):
             inner += "<br>" + rtext(rng, 0, 2, "ab") + "<img src='x'>"
         elif k < 0.55:
             inner += "<b>" + rtext(rng, 1, 2, "ab")
+        elif k < 0.62:
+            inner += "<noscript><img src='x'><b>no</b></noscript>" + rtext(rng, 0, 2, "ab")
+        elif k < 0.68:
+            inner += "<embed src='x'>" + rtext(rng, 0, 2, "ab")
+        elif k < 0.72:
+            inner += "<object><object>in</object>still</object>" + rtext(rng, 0, 2, "ab")
         return f"<{tg}>{inner}</{tg}>"
 
     def table(depth):
@@ -1015,6 +1021,7 @@ def gen_tables(ctx):
     txt += "Definition live_tags : list (str * str) := " + coq_list([f"({n}, {coq_str(short(v))})" for n, v in tags]) + ".\n\n"
     txt += "Definition live_remove_tags_html : list str := " + coq_list([coq_str(t) for t in sorted(H.REMOVE_TAGS)]) + ".\n"
     txt += "Definition live_remove_tags_epub : list str := " + coq_list([coq_str(t) for t in sorted(EP.REMOVE_TAGS)]) + ".\n"
+    txt += "Definition live_void_remove_tags_epub : list str := " + coq_list([coq_str(x) for x in sorted(getattr(EP, '_VOID_REMOVE_TAGS', set()))]) + ".\n"
     txt += "Definition live_ods_skip_tags : list str := " + coq_list([coq_str(short(t)) for t in sorted(ODS._TEXT_SKIP_TAGS)]) + ".\n"
     txt += "Definition live_odt_skip_tags : list str := " + coq_list([coq_str(short(t)) for t in sorted(getattr(ODT, '_TEXT_SKIP_TAGS', set()))]) + ".\n"
     txt += "Definition live_odp_skip_tags : list str := " + coq_list([coq_str(short(t)) for t in sorted(getattr(ODP, '_TEXT_SKIP_TAGS', set()))]) + ".\n"
@@ -1317,7 +1324,7 @@ def run(ctx):
                                  "C13_xlsx_typed_header_refuted", "C13_xls_sheet_partial", "C13_xls_duplicate_header_refuted",
                                  "C13_xls_header_only_refuted"])
     ok2, _ = ctx.prove("C13/Inst.v", ["Gen/C13Tables.vo", "C13/Corr.vo", "C13/Witness.vo"],
-                       expected=["C13_live_tags_match", "C13_remove_tags_match", "C13_odf_skip_tags_match", "C13_ws_ascii_agrees",
+                       expected=["C13_live_tags_match", "C13_remove_tags_match", "C13_void_remove_tags_match", "C13_odf_skip_tags_match", "C13_ws_ascii_agrees",
                                  "C13_span_not_skipped"])
 
     n = ctx.n(60, 450)
